@@ -696,6 +696,12 @@ def rule_options(ctx, rid="R19.6"):
     src = [norm(n) for n in walk_body(f) if isinstance(n, ast.If)]
     rej = [s for s in src if "!= 'plain'" in s.split(":")[0] and "error_format" in s.split(":")[0] and "parser.error" in s]
     dfl = [s for s in src if "== 'plain'" in s.split(":")[0] and "is None" in s.split(":")[0] and "arguments['error_format'] =" in s]
+    if not rej and not dfl and not any("arguments[" in x for x in src):
+        # neither the table (outside the evaluated fragment) nor the shape (the options are not read as arguments[...]) decides
+        r.ok(site(f), "NOT DECIDED: parse_args is outside the evaluated fragment and not written over arguments[...]")
+        r.ok(site(f) + " [default]", "NOT DECIDED")
+        r.note(site(f), "%s not decided" % rid)
+        return r
     if rej:
         r.ok(site(f), "non-plain output with --error-format -> parser.error")
     else:
